@@ -137,7 +137,13 @@ class Access:
             return
         if name.startswith(PURE_NS) or isinstance(f, ast.Name) and f.id in (
                 "len", "range", "min", "max", "abs", "sum", "sorted", "enumerate", "zip", "list", "tuple", "int", "float",
-                "print", "isinstance", "bool", "str", "reversed", "super", "round", "any", "all", "map", "filter", "dict", "set"):
+                "print", "isinstance", "bool", "str", "reversed", "super", "round", "any", "all", "map", "filter", "dict", "set",
+                "next", "iter", "islice", "chain", "repeat", "count", "product", "accumulate", "partial", "reduce", "namedtuple"):
+            return
+        if name in ("chain.from_iterable", "itertools.chain.from_iterable", "itertools.chain", "itertools.islice", "itertools.repeat",
+                    "itertools.count", "itertools.product", "itertools.accumulate", "functools.partial", "functools.reduce"):
+            # iterator plumbing of the standard library: no state of its own (what the iterated / called objects do is accounted
+            # for where they are used)
             return
         if isinstance(f, ast.Attribute):
             recv = f.value
